@@ -177,6 +177,12 @@ func genListValue(r *RNG, valid []string, extras []string) string {
 	if r.Chance(1, 8) && len(items) > 0 {
 		items = append([]string{""}, items...)
 	}
+	if r.Chance(1, 10) {
+		// white-space-only and padded items (not empty items: they are names, unknown ones)
+		ws := r.Pick([]string{" ", "  ", "\t", " id", "id ", "- ", " -"})
+		at := r.Intn(len(items) + 1)
+		items = append(append(append([]string{}, items[:at]...), ws), items[at:]...)
+	}
 	return strings.Join(items, ",")
 }
 
@@ -308,7 +314,7 @@ func genURL(r *RNG, s *SchemaSpec) *URLSpec {
 				items = append(items, it)
 			}
 			if r.Chance(1, 10) {
-				items = append(items, r.Pick([]string{"-", "--id", ""}))
+				items = append(items, r.Pick([]string{"-", "--id", "", " ", "  ", "- ", " id", "\t"}))
 			}
 			u.Params = append(u.Params, QP{"sort", strings.Join(items, ",")})
 		case 5, 6:
